@@ -60,6 +60,8 @@ type Script struct {
 	// has no handler for. The adaptation drops such a plugin; the raw runtime peer keeps the
 	// connection open, or closes it when CloseAfter is set.
 	CfgFail string `json:"cfg_fail,omitempty"`
+	// Sends: extra requests the raw runtime peer sends in this session (raw only; see Send).
+	Sends []Send `json:"sends,omitempty"`
 	// Hook: one stub API call the plugin makes from INSIDE a handler of this session, the first
 	// time that handler runs (healthy and raw sessions).
 	Hook *HookCall `json:"hook,omitempty"`
@@ -121,6 +123,10 @@ type C16Case struct {
 	// "event"; see plugins_test.go): which handler interfaces it implements.
 	Plugin  string   `json:"plugin,omitempty"`
 	Actions []Action `json:"actions"`
+	// LingerMs: the epilogue's fresh session stays up this long before it is stopped, with
+	// probes at 100, 600 and 1200 ms (those that fit): anything an earlier session left
+	// pending that would tear a later one down shows there.
+	LingerMs int `json:"linger_ms,omitempty"`
 	// DelayWaitCfg / DelayConnClosed: milliseconds slept at the i-th hit (cyclically) of
 	// "stub.start.waitcfg" / "stub.connclosed". Ignored when hooks are compiled out.
 	DelayWaitCfg    []int `json:"delay_waitcfg,omitempty"`
@@ -272,6 +278,24 @@ func genScript(t *rapid.T, h handshake, est *int64, plug string) *Script {
 			s.Fast = rapid.IntRange(0, 2).Draw(t, "fast") == 0
 		}
 	}
+	if s.Kind == "raw" && s.CfgFail == "" && rapid.Bool().Draw(t, "sends") {
+		send := rapid.Custom(func(t *rapid.T) Send {
+			return Send{
+				At:  rapid.SampledFrom([]string{"after-sync", "after-probe", "before-end"}).Draw(t, "at"),
+				Req: rapid.SampledFrom([]string{"shutdown", "shutdown", "shutdown", "configure", "synchronize", "unknown-event", "unknown-method"}).Draw(t, "req"),
+			}
+		})
+		s.Sends = rapid.SliceOfN(send, 1, 3).Draw(t, "send_list")
+		// at most one more Configure: the stub's result channel holds one
+		n := 0
+		for i := range s.Sends {
+			if s.Sends[i].Req == "configure" {
+				if n++; n > 1 {
+					s.Sends[i].Req = "shutdown"
+				}
+			}
+		}
+	}
 	if (s.Kind == "healthy" && rapid.IntRange(0, 2).Draw(t, "hooked") == 1) || (s.Kind == "raw" && rapid.IntRange(0, 2).Draw(t, "hooked") >= 1) {
 		calls := []string{"stop", "stop", "isstarted", "timeouts"}
 		if s.Kind == "raw" {
@@ -324,7 +348,7 @@ func genC16(t *rapid.T) C16Case {
 		ops = []string{"start", "start", "start", "start", "start", "stop", "stop", "wait", "wait", "drop", "drop", "probe", "probe", "bulkstop", "bulkstop", "bulkdrop"}
 	}
 	var c C16Case
-	c.Plugin = rapid.SampledFrom([]string{"all", "all", "all", "nocfg", "nocfg", "nosync", "neither", "event"}).Draw(t, "plugin")
+	c.Plugin = rapid.SampledFrom([]string{"all", "all", "all", "nocfg", "nocfg", "nosync", "neither", "event", "shutdown", "shutdown"}).Draw(t, "plugin")
 	// a history begins with a Start: Wait is documented for use after Start or Run
 	// the generator's own idea of the history (is the stub up, which registration timeout does
 	// it hold): only used to place the costly and the telling scripts, never by the oracle
@@ -357,6 +381,20 @@ func genC16(t *rapid.T) C16Case {
 		}
 		c.Actions = append(c.Actions, a)
 	}
+	// a long epilogue costs its length in wall time: a modest share of the histories in which a
+	// raw runtime sent something extra, a small one of the others
+	sent := false
+	for _, a := range c.Actions {
+		if a.Script != nil && len(a.Script.Sends) > 0 {
+			sent = true
+		}
+	}
+	lingers := make([]int, 60) // zeros
+	lingers[41] = 700
+	if sent {
+		lingers = []int{0, 0, 0, 0, 0, 700, 700, 1300}
+	}
+	c.LingerMs = rapid.SampledFrom(lingers).Draw(t, "linger_ms")
 	delay := rapid.OneOf(rapid.Just(0), rapid.Just(0), rapid.IntRange(1, 5), rapid.IntRange(5, 30))
 	c.DelayWaitCfg = rapid.SliceOfN(delay, 0, 3).Draw(t, "delay_waitcfg")
 	c.DelayConnClosed = rapid.SliceOfN(delay, 0, 3).Draw(t, "delay_connclosed")
@@ -400,6 +438,7 @@ type exec struct {
 	dir string
 
 	dials, closes, cfgs, probes atomic.Int32
+	shutdowns                   atomic.Int32 // invocations of the plugin's Shutdown handler
 	r2sAtCfg, s2rAtCfg          atomic.Int64
 	hits                        [2]atomic.Int32
 
@@ -485,7 +524,7 @@ func newExec(c C16Case) (*exec, error) {
 		return nil, nil, nil
 	}
 	x.pl.OnClose = func() { x.closes.Add(1) }
-	st, err := stub.New(pluginObject(c.Plugin, x.pl),
+	st, err := stub.New(pluginObject(c.Plugin, x.pl, func() { x.shutdowns.Add(1) }),
 		stub.WithPluginName(x.pl.Name), stub.WithPluginIdx(x.pl.Idx), stub.WithSocketPath(rt.Socket),
 		stub.WithOnClose(func() { x.closes.Add(1) }), stub.WithDialer(x.dial))
 	if err != nil {
@@ -605,7 +644,7 @@ func (x *exec) dial(string) (net.Conn, error) {
 				mode = rawMode{accept: true}
 			case "raw":
 				mode = rawMode{accept: true, configure: true, regMs: sc.RegMs, reqMs: sc.ReqMs, doSync: sc.DoSync,
-					updSilent: sc.Hook != nil && sc.Hook.Call == "update-unanswered", closeOnCfgErr: sc.CloseAfter}
+					updSilent: sc.Hook != nil && sc.Hook.Call == "update-unanswered", closeOnCfgErr: sc.CloseAfter, sends: sc.Sends}
 			}
 			if r, err = newRefuser(d, mode); err == nil {
 				peer = r
@@ -933,6 +972,10 @@ func (x *exec) doStart(sc Script) *failure {
 		}
 		x.classes["start:"+sc.Kind] = true
 		if sc.Kind == "raw" {
+			for _, sd := range sc.Sends {
+				x.classes["send:"+sd.Req] = true
+				x.classes["send-at:"+sd.At] = true
+			}
 			switch {
 			case sc.RegMs <= 0:
 				x.classes["raw:reg<=0"] = true
@@ -1160,7 +1203,16 @@ func (x *exec) afterHook(hk *hookState, sc Script) *failure {
 	return nil
 }
 
+// beforeEnd lets the raw runtime peer of the running session send what it has planned for the
+// moment just before the session is ended from outside.
+func (x *exec) beforeEnd() {
+	if x.up && x.cur != nil && x.cur.peer != nil {
+		x.cur.peer.sendExtras("before-end")
+	}
+}
+
 func (x *exec) doStop() *failure {
+	x.beforeEnd()
 	t0 := time.Now()
 	if x.up {
 		x.classes["stop:up"] = true
@@ -1190,6 +1242,7 @@ func (x *exec) doDrop() *failure {
 		return nil
 	}
 	x.classes["drop:up"] = true
+	x.beforeEnd()
 	lk := x.cur
 	x.estEnded++
 	x.faulted = true
@@ -1217,6 +1270,7 @@ func (x *exec) doBulk(a Action) *failure {
 		}
 		return nil
 	}
+	x.beforeEnd()
 	lk := x.cur
 	kb := a.KB
 	if kb < 1 {
@@ -1343,6 +1397,9 @@ func (x *exec) waitActive(why string) *failure {
 		}
 		if x.probes.Load() > base {
 			x.rec("probe", t0, "%s: reached the plugin", why)
+			if p := x.cur.peer; p != nil {
+				p.sendExtras("after-probe")
+			}
 			return nil
 		}
 		if time.Now().After(deadline) {
@@ -1557,6 +1614,27 @@ func (x *exec) epilogue() *failure {
 	if !x.up {
 		// the fresh Start failed and was not judged (stored registration timeout below 1 s)
 		x.classes["epilogue:restart-not-judged"] = true
+	} else if x.c.LingerMs > 0 {
+		// stay up: nothing an earlier session left behind may close this one
+		x.classes["epilogue:linger"] = true
+		t0 := time.Now()
+		for _, mark := range []int{100, 600, 1200} {
+			if mark > x.c.LingerMs {
+				break
+			}
+			if d := time.Until(t0.Add(time.Duration(mark) * time.Millisecond)); d > 0 {
+				time.Sleep(d)
+			}
+			if f := x.waitActive(fmt.Sprintf("epilogue, %d ms after the fresh Start", mark)); f != nil {
+				return f
+			}
+		}
+		if d := time.Until(t0.Add(time.Duration(x.c.LingerMs) * time.Millisecond)); d > 0 {
+			time.Sleep(d)
+		}
+		if f := x.settleUp(fmt.Sprintf("epilogue, %d ms after the fresh Start", x.c.LingerMs)); f != nil {
+			return f
+		}
 	}
 	if f := x.doStop(); f != nil {
 		return f
